@@ -13,6 +13,16 @@
 (* Environment: Arrive (server / transport puts a message on the stream),  *)
 (* Cancel (application triggers the token), Advance (time passes).         *)
 (*                                                                         *)
+(* The read stream is an anyio memory object stream.  With FifoWaiters its  *)
+(* hand-off is modelled as the code has it: receive() yields once          *)
+(* (entering), then takes the head of the buffer or joins the queue of     *)
+(* blocked receivers (waitq); a message sent while receivers are blocked   *)
+(* is handed to the FIRST of them at that instant (hand) and never reaches *)
+(* the buffer; a sub-timeout takes its caller out of the queue and the     *)
+(* next loop iteration joins it again at the back.  Without FifoWaiters    *)
+(* any waiting caller may take the head of the stream (the abstraction the *)
+(* first version of this module used).                                     *)
+(*                                                                         *)
 (* Time is a natural number of units; P units = one 0.5 s poll interval.   *)
 (* Advance jumps to the next armed timer (or one unit), never past one, and*)
 (* is disabled while a waiter could receive (receiving is urgent).         *)
@@ -27,7 +37,8 @@ CONSTANTS
   Kinds,          \* message kinds the environment may inject
   MaxArr,         \* bound on the number of arrivals
   MaxTime,        \* bound on the clock
-  SameIdRequestIsResponse   \* deviation: a message with the caller's id AND a method completes the call
+  SameIdRequestIsResponse,  \* deviation: a message with the caller's id AND a method completes the call
+  FifoWaiters               \* model the memory stream's queue of blocked receivers
 
 Other == "other"            \* an id / token that belongs to no caller
 Ids   == Callers \cup {Other}
@@ -57,10 +68,14 @@ VARIABLES
   progLog,      \* arrival indices for which the callback was invoked, in order
   progArr,      \* arrivals of prog messages bearing the caller's token: seq of [n, at]
   firstMatch,   \* first arrived response (resp/err) bearing the caller's id, or None
-  startedAt
+  startedAt,
+  entering,     \* callers inside receive() before its buffer check (one yield)
+  waitq,        \* blocked receivers, in the order they blocked
+  hand          \* hand[c]: the message handed to blocked receiver c and not yet processed, or None
 
 vars == <<now, inq, narr, cfg, st, deadline, pollAt, outcome, reqWritten, cancelNotifs,
-          cancelled, cancelAt, progLog, progArr, firstMatch, startedAt>>
+          cancelled, cancelAt, progLog, progArr, firstMatch, startedAt, entering, waitq, hand>>
+rx == <<entering, waitq, hand>>
 
 NoOutcome == [kind |-> "none", src |-> None, t |-> 0, pre |-> FALSE]
 
@@ -79,10 +94,12 @@ InitWith(f) ==
   /\ progArr = [c \in Callers |-> <<>>]
   /\ firstMatch = [c \in Callers |-> None]
   /\ startedAt = [c \in Callers |-> 0]
+  /\ entering = {} /\ waitq = <<>> /\ hand = [c \in Callers |-> None]
 
 Init == \E f \in [Callers -> Configs] : InitWith(f)
 
 Waiting == {c \in Callers : st[c] = "wait"}
+Without(q, c) == SelectSeq(q, LAMBDA x : x # c)
 
 \* completion of caller c
 Done(c, kind, src, pre) ==
@@ -95,8 +112,9 @@ Loop(c) ==
   IF cfg[c].tok /\ cancelled[c]
   THEN /\ cancelNotifs' = [cancelNotifs EXCEPT ![c] = @ + 1]
        /\ Done(c, "cancelled", None, FALSE)
-       /\ UNCHANGED pollAt
+       /\ UNCHANGED <<pollAt, entering>>
   ELSE /\ pollAt' = [pollAt EXCEPT ![c] = now + P]
+       /\ entering' = IF FifoWaiters THEN entering \cup {c} ELSE entering
        /\ UNCHANGED <<cancelNotifs, st, outcome>>
 
 \* send_message up to and including the first loop iteration's arming of the timers
@@ -107,13 +125,24 @@ Start(c) ==
      THEN \* cancelled before sending: notification, CancelledError, request never written
           /\ cancelNotifs' = [cancelNotifs EXCEPT ![c] = @ + 1]
           /\ Done(c, "cancelled", None, TRUE)
-          /\ UNCHANGED <<reqWritten, deadline, pollAt>>
+          /\ UNCHANGED <<reqWritten, deadline, pollAt, entering>>
      ELSE /\ reqWritten' = [reqWritten EXCEPT ![c] = @ + 1]
           /\ st' = [st EXCEPT ![c] = "wait"]
           /\ deadline' = [deadline EXCEPT ![c] = now + cfg[c].T]
           /\ pollAt' = [pollAt EXCEPT ![c] = now + P]
+          /\ entering' = IF FifoWaiters THEN entering \cup {c} ELSE entering
           /\ UNCHANGED <<cancelNotifs, outcome>>
-  /\ UNCHANGED <<now, inq, narr, cfg, cancelled, cancelAt, progLog, progArr, firstMatch>>
+  /\ UNCHANGED <<now, inq, narr, cfg, cancelled, cancelAt, progLog, progArr, firstMatch, waitq, hand>>
+
+\* receive() after its initial yield: the head of the buffer, or the back of the queue
+EnterRecv(c) ==
+  /\ FifoWaiters /\ c \in entering /\ st[c] = "wait"
+  /\ entering' = entering \ {c}
+  /\ IF inq # <<>>
+     THEN /\ hand' = [hand EXCEPT ![c] = Head(inq)] /\ inq' = Tail(inq) /\ UNCHANGED waitq
+     ELSE /\ waitq' = Append(waitq, c) /\ UNCHANGED <<hand, inq>>
+  /\ UNCHANGED <<now, narr, cfg, st, deadline, pollAt, outcome, reqWritten, cancelNotifs, cancelled, cancelAt,
+                 progLog, progArr, firstMatch, startedAt>>
 
 \* what one received message does to caller c
 Terminal(c, m) ==
@@ -122,10 +151,16 @@ Terminal(c, m) ==
 
 ProgressHit(c, m) == cfg[c].cb /\ m.k = "prog" /\ m.id = c
 
+\* the message caller c processes next, if any
+CanRecv(c) == IF FifoWaiters THEN hand[c] # None ELSE inq # <<>>
+NextFor(c) == IF FifoWaiters THEN hand[c] ELSE Head(inq)
+
 Recv(c) ==
-  /\ st[c] = "wait" /\ inq # <<>> /\ now <= deadline[c]
-  /\ LET m == Head(inq) IN
-     /\ inq' = Tail(inq)
+  /\ st[c] = "wait" /\ CanRecv(c) /\ now <= deadline[c]
+  /\ LET m == NextFor(c) IN
+     /\ IF FifoWaiters
+        THEN hand' = [hand EXCEPT ![c] = None] /\ UNCHANGED <<inq, waitq>>
+        ELSE inq' = Tail(inq) /\ UNCHANGED <<hand, waitq>>
      /\ IF ProgressHit(c, m)
         THEN \* callback invoked (it may raise: logged and swallowed), keep waiting
              /\ progLog' = [progLog EXCEPT ![c] = Append(@, m.n)]
@@ -133,41 +168,47 @@ Recv(c) ==
         ELSE /\ UNCHANGED progLog
              /\ IF Terminal(c, m)
                 THEN /\ Done(c, IF m.k = "err" THEN "error" ELSE "result", m, FALSE)
-                     /\ UNCHANGED <<cancelNotifs, pollAt>>
+                     /\ UNCHANGED <<cancelNotifs, pollAt, entering>>
                 ELSE Loop(c)        \* skipped: other id, notification, batch, foreign progress
   /\ UNCHANGED <<now, narr, cfg, deadline, reqWritten, cancelled, cancelAt, progArr, firstMatch, startedAt>>
 
+\* the sub-timeout cancels a BLOCKED receive (a handed message wins over the cancellation)
 PollTimeout(c) ==
   /\ st[c] = "wait" /\ now = pollAt[c] /\ now <= deadline[c]
+  /\ (FifoWaiters => hand[c] = None /\ c \notin entering)
+  /\ waitq' = Without(waitq, c)
   /\ Loop(c)
-  /\ UNCHANGED <<now, inq, narr, cfg, deadline, reqWritten, cancelled, cancelAt, progLog, progArr, firstMatch, startedAt>>
+  /\ UNCHANGED <<now, inq, narr, cfg, deadline, reqWritten, cancelled, cancelAt, progLog, progArr, firstMatch, startedAt, hand>>
 
 Deadline(c) ==
   /\ st[c] = "wait" /\ now = deadline[c]
   /\ Done(c, "timeout", None, FALSE)
+  /\ waitq' = Without(waitq, c) /\ entering' = entering \ {c} /\ hand' = [hand EXCEPT ![c] = None]
   /\ UNCHANGED <<now, inq, narr, cfg, deadline, pollAt, reqWritten, cancelNotifs, cancelled, cancelAt, progLog, progArr, firstMatch, startedAt>>
 
 \* ---- environment ----
 ArriveMsg(m) ==
-  /\ inq' = Append(inq, m)
+  /\ IF FifoWaiters /\ waitq # <<>>
+     THEN /\ hand' = [hand EXCEPT ![Head(waitq)] = m] /\ waitq' = Tail(waitq) /\ UNCHANGED inq
+     ELSE /\ inq' = Append(inq, m) /\ UNCHANGED <<hand, waitq>>
   /\ narr' = narr + 1
   /\ firstMatch' = IF IsResp(m) /\ m.id \in Callers /\ firstMatch[m.id] = None
                    THEN [firstMatch EXCEPT ![m.id] = m] ELSE firstMatch
   /\ progArr' = IF m.k = "prog" /\ m.id \in Callers
                 THEN [progArr EXCEPT ![m.id] = Append(@, [n |-> m.n, at |-> m.at])] ELSE progArr
-  /\ UNCHANGED <<now, cfg, st, deadline, pollAt, outcome, reqWritten, cancelNotifs, cancelled, cancelAt, progLog, startedAt>>
+  /\ UNCHANGED <<now, cfg, st, deadline, pollAt, outcome, reqWritten, cancelNotifs, cancelled, cancelAt, progLog, startedAt, entering>>
 
-Arrive ==
+ArriveKI(k, i) ==
   /\ narr < MaxArr
-  /\ \E k \in Kinds, i \in Ids :
-        /\ (k \in {"notif", "batch"} => i = Other)
-        /\ ArriveMsg([k |-> k, id |-> i, n |-> narr + 1, at |-> now])
+  /\ (k \in {"notif", "batch"} => i = Other)
+  /\ ArriveMsg([k |-> k, id |-> i, n |-> narr + 1, at |-> now])
+Arrive == \E k \in Kinds, i \in Ids : ArriveKI(k, i)
 
 Cancel(c) ==
   /\ cfg[c].tok /\ ~cancelled[c] /\ st[c] # "done"
   /\ cancelled' = [cancelled EXCEPT ![c] = TRUE]
   /\ cancelAt' = [cancelAt EXCEPT ![c] = now]
-  /\ UNCHANGED <<now, inq, narr, cfg, st, deadline, pollAt, outcome, reqWritten, cancelNotifs, progLog, progArr, firstMatch, startedAt>>
+  /\ UNCHANGED <<now, inq, narr, cfg, st, deadline, pollAt, outcome, reqWritten, cancelNotifs, progLog, progArr, firstMatch, startedAt, entering, waitq, hand>>
 
 Timers == {deadline[c] : c \in Waiting} \cup {pollAt[c] : c \in Waiting}
 
@@ -175,9 +216,11 @@ AdvanceTo(t) ==
   /\ t > now
   /\ \A u \in Timers : u >= t           \* never past an armed timer
   /\ \A u \in Timers : u > now          \* every timer due now has fired
-  /\ (Waiting # {} => inq = <<>>)       \* receiving is urgent
+  /\ IF FifoWaiters
+     THEN entering = {} /\ \A c \in Callers : hand[c] = None      \* entering and processing take no time
+     ELSE (Waiting # {} => inq = <<>>)                               \* receiving is urgent
   /\ now' = t
-  /\ UNCHANGED <<inq, narr, cfg, st, deadline, pollAt, outcome, reqWritten, cancelNotifs, cancelled, cancelAt, progLog, progArr, firstMatch, startedAt>>
+  /\ UNCHANGED <<inq, narr, cfg, st, deadline, pollAt, outcome, reqWritten, cancelNotifs, cancelled, cancelAt, progLog, progArr, firstMatch, startedAt, entering, waitq, hand>>
 
 Advance ==
   /\ \E c \in Callers : st[c] # "done"
@@ -185,7 +228,7 @@ Advance ==
   /\ AdvanceTo(now + 1)
 
 Next ==
-  \/ \E c \in Callers : Start(c) \/ Recv(c) \/ PollTimeout(c) \/ Deadline(c) \/ Cancel(c)
+  \/ \E c \in Callers : Start(c) \/ EnterRecv(c) \/ Recv(c) \/ PollTimeout(c) \/ Deadline(c) \/ Cancel(c)
   \/ Arrive
   \/ Advance
 
@@ -198,6 +241,16 @@ TypeOK ==
   /\ now \in 0..MaxTime /\ narr \in 0..MaxArr
   /\ \A c \in Callers : st[c] \in {"idle", "wait", "done"}
   /\ \A c \in Callers : outcome[c].kind \in {"none", "result", "error", "timeout", "cancelled"}
+
+\* the receive queue: messages are buffered only while nobody is blocked, a caller is in at most
+\* one place, and only waiting callers are anywhere
+RxInv ==
+  /\ (inq # <<>> => waitq = <<>>)
+  /\ \A c \in Callers :
+        /\ (c \in entering \/ hand[c] # None \/ \E i \in DOMAIN waitq : waitq[i] = c) => st[c] = "wait"
+        /\ ~(c \in entering /\ hand[c] # None)
+        /\ \A i \in DOMAIN waitq : waitq[i] = c => c \notin entering /\ hand[c] = None
+  /\ \A i, j \in DOMAIN waitq : i # j => waitq[i] # waitq[j]
 
 \* C01/C18: a call completes normally or with a JSON-RPC error only on the first response
 \* (a message without a method) bearing its own id
